@@ -14,6 +14,11 @@ Lemma Q2R_c0 : Q2R (0 # 1) = 0. Proof. unfold Q2R; cbn; lra. Qed.
 Lemma Q2R_c2 : Q2R (2 # 1) = 2. Proof. unfold Q2R; cbn; lra. Qed.
 Lemma Q2R_c4 : Q2R (4 # 1) = 4. Proof. unfold Q2R; cbn; lra. Qed.
 
+Definition p_611_213_Q : Q := (2688143202191409 # 4398046511104)%Q.   (* the double 611.213 *)
+(** the upper limit of tsat's range test, read off the traced DAG (third node: the constant the
+    argument is compared with): pcritical in the source as it stands *)
+Definition tsat_upper_Q : Q := match nth 2 tsat_nodes (NVar 0) with NConst q _ => q | _ => 0%Q end.
+
 Section Formulas.
   Variable n : nat -> R.
 
@@ -65,18 +70,16 @@ Section Formulas.
         * right. left. split; [|reflexivity]. split; [lra|exact I].
   Qed.
 
-  Definition p_611_213_Q : Q := (2688143202191409 # 4398046511104)%Q.   (* the double 611.213 *)
-
   Lemma tsat_traced_is (p : R) (r : rres) :
     runsR tsat_traced [p] n r <->
-    (Q2R p_611_213_Q <= p <= Q2R pcritical_Q /\ r = RRet [tsat_val p]) \/
-    (~ (Q2R p_611_213_Q <= p <= Q2R pcritical_Q) /\ r = RNone).
+    (Q2R p_611_213_Q <= p <= Q2R tsat_upper_Q /\ r = RRet [tsat_val p]) \/
+    (~ (Q2R p_611_213_Q <= p <= Q2R tsat_upper_Q) /\ r = RNone).
   Proof.
     unfold runsR, envR.
     cbv [tsat_traced t_paths t_nodes some_pathR condsR condR p_conds p_out outR c_cmp c_a c_b c_expect map].
     cbv [evalR eval_nodes eval_node get nth tsat_nodes].
     rewrite ?Q2R_c0, ?Q2R_c2, ?Q2R_c4.
-    cbv [tsat_val tk_of disc3 dd_of den2 disc2 qE qF qG p_611_213_Q pcritical_Q tc_k_Q pstar4_Q].
+    cbv [tsat_val tk_of disc3 dd_of den2 disc2 qE qF qG p_611_213_Q tsat_upper_Q tsat_nodes nth tc_k_Q pstar4_Q].
     split.
     - intros [[[H1 [H2 _]] E]|[[[H1 _] E]|[[[H1 [H2 _]] E]|[]]]].
       + left. split; [lra|]. rewrite <- E. reflexivity.
